@@ -18,7 +18,7 @@ ASSUMPTIONS = ["securecookie's MAC/encryption are unforgeable: a cookie is accep
 
 
 def nontrivial(c):
-    if c.kind in ("config", "keyshare"):
+    if c.kind in ("config", "keyshare", "exact", "serving"):
         return True
     return c.kind == "cookiemut" or (c.kind == "oidc" and "b:" in c.fields[1])
 
